@@ -87,6 +87,17 @@ def constructed(rng):
         b2 = rng.randrange(1, M // P10[k] + 1)
         add(G.fD(a, p), G.fD(sg(rng, b2), q))
         add(G.fD(sg(rng, M), p), G.fD(sg(rng, M // P10[k]), q))
+    # integer dividends that cannot be up-scaled, huge divisors (step overflow with an int on the left)
+    for _ in range(150):
+        q = rng.randrange(1, 19)
+        a = rng.randrange(M // P10[q] + 1, M + 1)
+        b = rng.randrange(M // 10 + 1, M + 1) if rng.random() < 0.6 else rng.getrandbits(rng.randrange(20, 127)) + 1
+        add(G.fI("i128", sg(rng, a)), G.fD(sg(rng, b), q))
+        if a < (1 << 64):
+            add(G.fI("u64", a), G.fD(sg(rng, b), q))
+    for q in range(1, 19):
+        add(G.fI("u64", (1 << 64) - 1), G.fD(sg(rng, rng.randrange(M // 10 + 1, M + 1)), q))
+        add(G.fI("i64", -(1 << 63)), G.fD(sg(rng, rng.randrange(M // 10 + 1, M + 1)), q))
     for s in range(19):
         for t in range(19):
             x = rng.randrange(-M, M + 1)
